@@ -346,6 +346,57 @@ def run_sequence(spec_name, grammar, seq, seed):
     return problems
 
 
+def all_shapes(max_nodes, labels=("<a>", "<b>")):
+    """every ordered tree with at most max_nodes nodes whose nodes carry one of the labels"""
+    from functools import lru_cache
+
+    @lru_cache(maxsize=None)
+    def forests(n):
+        # ordered forests with exactly n nodes
+        if n == 0:
+            return [()]
+        out = []
+        for first in range(1, n + 1):
+            for t in trees(first):
+                for rest in forests(n - first):
+                    out.append((t,) + rest)
+        return out
+
+    @lru_cache(maxsize=None)
+    def trees(n):
+        return [(lab, kids) for lab in labels for kids in forests(n - 1)]
+
+    return [t for n in range(1, max_nodes + 1) for t in trees(n)]
+
+
+def build_shape(sh):
+    from fandango.language.symbols.non_terminal import NonTerminal
+    from fandango.language.tree import DerivationTree
+    lab, kids = sh
+    return DerivationTree(NonTerminal(lab), [build_shape(k) for k in kids])
+
+
+def check_equality_is_structural(tier):
+    """two trees are equal exactly when symbols and shape coincide: all pairs of small trees (incl. pairs with the same
+    pre-order sequence of symbols but another nesting)"""
+    shapes = all_shapes(4 if tier == "quick" else 5)
+    trees = [build_shape(s) for s in shapes]
+    problems, n = [], 0
+    for i, a in enumerate(trees):
+        for j in range(i, len(trees)):
+            b = trees[j]
+            n += 1
+            same = shapes[i] == shapes[j]
+            eq = (a == b)
+            if eq != same:
+                problems.append(f"equality: trees {shapes[i]!r} and {shapes[j]!r} compare {'equal' if eq else 'unequal'}")
+                return problems, n
+            if same and hash(a) != hash(b):
+                problems.append(f"equality: equal trees {shapes[i]!r} hash differently")
+                return problems, n
+    return problems, n
+
+
 def run(tier="quick", seed=0, pid="C10"):
     from fandango.language.parse.parse import parse
     t0 = time.time()
@@ -379,9 +430,15 @@ def run(tier="quick", seed=0, pid="C10"):
                                        "script": replay_script(sname, [n for n, _ in seq], sd)})
             if len(samples) < 6 and rndsample(seq):
                 samples.append({"spec": sname, "operations": [n for n, _ in seq]})
+    eq_probs, eq_n = check_equality_is_structural(tier)
+    evaluations += eq_n
+    for p in eq_probs:
+        violations.append({"name": "bounded:tree_invariant_and_non_aliasing", "witness": "kind=equality_is_not_structural",
+                           "detail": p, "script": replay_equality_script(tier)})
     return {
         "evaluations": evaluations, "distinct_nontrivial": len(distinct),
-        "rule": (f"4 specs x all sequences of {depth} operations from a catalogue of {len(OPS)} (thorough: 1200 sampled sequences of 3) x 2 seeds; "
+        "rule": ("all pairs of ordered trees with <= 4 (5) nodes over two symbols: equal exactly when shape and symbols coincide; "
+                 f"5 specs x all sequences of {depth} operations from a catalogue of {len(OPS)} (thorough: 1200 sampled sequences of 3) x 2 seeds; "
                  "after every operation the invariant is recomputed from scratch and inputs are compared with snapshots; "
                  "distinct = distinct (spec, operation sequence, seed index); all non-trivial (>= 2 operations)"),
         "bound": f"operation sequences of length {depth}; trees from grammar.fuzz()", "samples": samples or [{"spec": "rows", "operations": ["replace", "add_child"]}],
@@ -402,6 +459,21 @@ sys.path.insert(0, {root!r})
 os.environ.setdefault("VERIF_REPO", "/repo")
 from bounded import c10
 sys.exit(c10.replay({sname!r}, {names!r}, {sd}))
+'''
+
+
+def replay_equality_script(tier):
+    root = os.path.dirname(os.path.dirname(os.path.abspath(__file__)))
+    return f'''#!/usr/bin/env python3
+"""C10 witness: tree equality is not structural.  Exit 1 = reproduced."""
+import os, sys
+sys.path.insert(0, {root!r})
+os.environ.setdefault("VERIF_REPO", "/repo")
+from bounded import c10
+probs, n = c10.check_equality_is_structural({tier!r})
+for p in probs:
+    print("VIOLATION reproduced:", p)
+sys.exit(1 if probs else 0)
 '''
 
 
